@@ -241,7 +241,7 @@ def map_worlds(fn, arglist, jobs=None, budget_s=None, per_item_timeout=900):
     with cf.ProcessPoolExecutor(max_workers=jobs, mp_context=ctx) as ex:
         exhausted = False
         while True:
-            while not exhausted and len(pending) < jobs * 2:
+            while not exhausted and len(pending) < jobs + 4:
                 if budget_s is not None and time.monotonic() - t0 > budget_s:
                     exhausted = True
                     break
